@@ -111,6 +111,9 @@ def stage_functions(index) -> set:
                 c = index.resolve_name(fi.module, n.id)
                 if isinstance(c, FunctionInfo) and c.cls is None and c.parent is None and c.module is fi.module and reaches(c, seen):
                     return True
+                # ... or builds an instance of a class of its module one of whose methods does (a callable object instead of a closure)
+                if getattr(c, "methods", None) is not None and getattr(c, "module", None) is fi.module and any(reaches(m_, seen) for m_ in c.methods.values()):
+                    return True
         return False
 
     out = set()
